@@ -10,7 +10,8 @@ Requests (one per line):
   <cfg> := <interfaces : list int> <workers : int> <moves : list 0/1> <cap : - | int>
            <lm1 : A | F | int> <quantis : - | 0 | 1>
            <ensemble_engines : - | list (list str)> <engines : list (str cls ip other)>   ip := - | nat
-           <seed : - | int> <accept_all : - | 0 | 1>
+           <seed : - | int> <accept_all : - | 0 | 1> [<current.size : - | nat>]   (absent = "-": no [current] table)
+  checkasis / loadasis: the code before /repo commit 971ccbc (`checkAsIs`, `startUpAsIs`)
 -/
 
 def showErr : Err → String
@@ -74,6 +75,12 @@ def parseCfg (toks : List String) : Option Cfg := do
           let acc ← optTok parseBool? acc
           pure { interfaces := intf, workers := w, moves := mv, cap := cap, lm1 := lm1, quantis := q,
                  ensEngines := ee, engines := engs, seed := seed, acceptAll := acc }
+        | [seed, acc, size] =>
+          let seed ← optTok parseInt? seed
+          let acc ← optTok parseBool? acc
+          let size ← optTok parseNat? size
+          pure { interfaces := intf, workers := w, moves := mv, cap := cap, lm1 := lm1, quantis := q,
+                 ensEngines := ee, engines := engs, seed := seed, acceptAll := acc, curSize := size }
         | _ => none
       | [] => none
     | _ => none
@@ -152,6 +159,7 @@ def showInitErr : InitErr → String
   | .wf .value => "err:value"
   | .assert => "err:assert"
   | .index => "err:index"
+  | .value => "err:value"
 
 def takeIntLists : Nat → List String → Option (List (List Int) × List String)
   | 0, rest => some ([], rest)
@@ -171,7 +179,7 @@ def showInitState (s : InitState) : String :=
 /-- `load <k> <order values of path 0> … <of path k-1> <cfg>` — `setup_config` then `setup_internal`
     (model `Infretis.Config.startUp`): the W matrix of the state after `load_paths` and the first md_items;
     `internal …` — `setup_internal` alone on the configuration as given (`Infretis.Config.setupInternal`) -/
-def handleLoad (whole : Bool) (toks : List String) : String :=
+def handleLoad (whole : Nat) (toks : List String) : String :=
   match toks with
   | k :: rest =>
     match parseNat? k with
@@ -183,7 +191,8 @@ def handleLoad (whole : Bool) (toks : List String) : String :=
         match parseCfg rest with
         | none => "bad-op"
         | some c =>
-          match (if whole then startUp c paths else setupInternal c paths) with
+          match (if whole = 1 then startUp c paths else if whole = 2 then startUpAsIs c paths
+                 else setupInternal c paths) with
           | .ok s => showInitState s
           | .error e => showInitErr e
   | [] => "bad-op"
@@ -196,7 +205,7 @@ def takeSections : Nat → List String → Option (List (String × Nat) × List 
     | _, _, _ => none
   | _ + 1, _ => none
 
-/-- `<file> := - | F <nsec> (<hex name> <code>)* <pattern 0|1> <current : - | C cstep rf steps present> <ntok> <cfg tokens>` -/
+/-- `<file> := - | F <nsec> (<hex name> <code>)* <pattern 0|1|2|3> <current : - | C cstep rf steps present> <ntok> <cfg tokens>` -/
 def takeFile (toks : List String) : Option (Option TomlFile × List String) :=
   match toks with
   | "-" :: rest => some (none, rest)
@@ -207,9 +216,10 @@ def takeFile (toks : List String) : Option (Option TomlFile × List String) :=
       match takeSections n rest with
       | none => none
       | some (secs, pat :: rest) =>
-        match parseBool? pat with
+        -- bit 0: output.pattern, bit 1: the file has the key output.pattern_file
+        match (parseNat? pat).bind (fun k => if k < 4 then some (decide (k % 2 = 1), decide (k / 2 = 1)) else none) with
         | none => none
-        | some pat =>
+        | some (pat, hasPf) =>
           let cur : Option (Option Restart × List String) :=
             match rest with
             | "-" :: rest => some (none, rest)
@@ -227,7 +237,8 @@ def takeFile (toks : List String) : Option (Option TomlFile × List String) :=
               if rest.length < k then none else
               match parseCfg (rest.take k) with
               | none => none
-              | some c => some (some { sections := secs, cfg := c, pattern := pat, current := cur }, rest.drop k)
+              | some c => some (some { sections := secs, cfg := c, pattern := pat, current := cur,
+                                       hasPatternFile := hasPf }, rest.drop k)
           | _ => none
       | some (_, []) => none
   | _ => none
@@ -260,13 +271,15 @@ def handle (toks : List String) : String :=
   | "restart" :: rest => handleRestart rest
   | "files" :: rest => handleFiles rest
   | "cv" :: rest => handleCv rest
-  | "load" :: rest => handleLoad true rest
-  | "internal" :: rest => handleLoad false rest
+  | "load" :: rest => handleLoad 1 rest
+  | "loadasis" :: rest => handleLoad 2 rest
+  | "internal" :: rest => handleLoad 0 rest
   | op :: rest =>
     match parseCfg rest with
     | none => "bad-op"
     | some c =>
       if op = "check" then showUnit (check c)
+      else if op = "checkasis" then showUnit (checkAsIs c)
       else if op = "setup" then showSetup (setupConfig c)
       else if op = "valid" then (if validB c then "1" else "0")
       else if op = "init" then
